@@ -59,9 +59,15 @@ def gate_rxz(a, b):
     return torch.kron(gate_rx(a), gate_rz(b))
 
 
+def gate_r3(a, b, c):
+    """three-qubit gate rx(a) (x) rz(b) (x) ry(c): no symmetry under any permutation of its qubits (probes 3-cycles of targets)."""
+    return torch.kron(torch.kron(gate_rx(a), gate_rz(b)), gate_ry(c))
+
+
 GATES = {'rx': (gate_rx, 1, 1), 'ry': (gate_ry, 1, 1), 'rz': (gate_rz, 1, 1), 'u3': (gate_u3, 3, 1), 'rzz': (gate_rzz, 1, 2),
          'crx': (gate_rx, 1, 1), 'cry': (gate_ry, 1, 1), 'crz': (gate_rz, 1, 1), 'cu3': (gate_u3, 3, 1),
-         'rxz': (gate_rxz, 2, 2), 'crxz': (gate_rxz, 2, 2), 'crzz': (gate_rzz, 1, 2)}
+         'rxz': (gate_rxz, 2, 2), 'crxz': (gate_rxz, 2, 2), 'crzz': (gate_rzz, 1, 2),
+         'r3': (gate_r3, 3, 3), 'cr3': (gate_r3, 3, 3)}
 # name -> (matrix function, number of parameters, number of target qubits)
 
 _s2 = 1 / np.sqrt(2)
